@@ -134,6 +134,18 @@ func checkC12(c *Ctx) {
 			R.check(ok, "C12.owner", field+" written by "+fn, pos, "listed owner: "+allowed[fn], "a function outside the owner table writes "+field+" (the order list and the map can get out of sync / a copy can be corrupted)")
 		}
 	}
+	// writes through the exposed backing stores (getter results) count as foreign writers too
+	for _, rel := range corePkgs {
+		for _, fn := range u.srcFuncs(rel) {
+			for _, call := range u.callsNamed(fn, "pkg/value.Array.GetValue", "pkg/value.HashMap.GetValue", "pkg/value.HashMap.GetKeyOrder") {
+				if v := call.Value(); v != nil {
+					if bad := writesThrough(v); bad != "" {
+						R.viol("C12.owner", u.fname(fn)+" writes through "+shortName(u.callName(call)), u.pos(call.Pos()), "a function outside the owner table writes a list/dictionary's backing store obtained from a getter ("+bad+"): the order list and the map can get out of sync")
+					}
+				}
+			}
+		}
+	}
 	R.min("C12.owner", 15)
 	R.count("backing_store_writers", nW)
 
